@@ -56,6 +56,13 @@ def acc_rs(s, x, **kw):
     return s + v, s * 2 + v
 
 
+def acc_rs_list(s, x, **kw):
+    """returns_state=True with the (state, result) pair handed back as a list"""
+    _jitter(x)
+    v = (tsum(x) if isinstance(x, (tuple, list)) else x) + _kw(kw)
+    return [s + v, s * 2 + v]
+
+
 def twin_a(x, **kw):
     _jitter(x)
     return x * 2 + _kw(kw)
@@ -71,5 +78,5 @@ TWINS = {"twin_a": twin_a, "twin_b": twin_b}
 twin_a.__name__ = twin_b.__name__ = "twin"
 twin_a.__qualname__ = twin_b.__qualname__ = "twin"
 
-FUN = {f.__name__: f for f in (inc, dbl, tsum, add, acc_add, acc_rs)}
+FUN = {f.__name__: f for f in (inc, dbl, tsum, add, acc_add, acc_rs, acc_rs_list)}
 FUN.update(TWINS)
